@@ -25,6 +25,8 @@ class PushedAuthorization(Authorization):
         # self.pre_construct.append(self._pre_construct)
         self.post_parse_request.append(self._post_parse_request)
         self.ttl = kwargs.get("ttl", 3600)
+        # RFC 9126 2.: the issuer identifier is an acceptable audience of a client assertion sent here
+        self.allowed_targets.append("")
 
     def _do_request_uri(self, request, client_id, context, **kwargs):
         # RFC 9126: a pushed authorization request must not itself carry a request_uri; resolving it
